@@ -38,6 +38,8 @@ P_churn == (1 :> <<ld(1), dg, ex, ld(1), dg, ex>>) @@ (2 :> <<st(1)>>)
 P_churn2 == (1 :> <<ld(1), ex>>) @@ (2 :> <<st(1)>>) @@ (3 :> <<ld(1), dg, dother, ex>>)
 \* generation wrap (GenMod small, fallback forced by NF = 0)
 P_wrap == (1 :> <<ld(1), dg, ld(1), dg, ld(1), dg>>) @@ (2 :> <<st(1), st(1)>>)
+\* a full cycle of the generations while a writer is inside help: the third load (other container) has the first one's generation
+P_wrap2c == (1 :> <<ld(1), dg, ld(2), dg, ld(2), dg>>) @@ (2 :> <<st(1)>>)
 P_wrapw == (1 :> <<lf(1), dh, st(1), lf(1), dh>>) @@ (2 :> <<st(1)>>)
 cas(c) == [k |-> "cas", c |-> c]
 \* compare_and_swap against a handle loaded earlier, racing with a store (the stale handle makes it fail) and with another CAS
